@@ -1,0 +1,17 @@
+//go:build !verif
+
+// Package verifhook contains instrumentation points for runtime verification.
+// Without the "verif" build tag all functions are empty and get inlined away.
+package verifhook
+
+// Enabled reports whether the instrumentation is compiled in.
+const Enabled = false
+
+// PoolGet is called when obj has been taken out of the pool identified by kind.
+func PoolGet(kind string, obj any) {}
+
+// PoolPut is called right before obj (whose backing buffer is buf) is put back into the pool identified by kind.
+func PoolPut(kind string, obj any, buf []byte) {}
+
+// Point marks a schedule point between two critical sections.
+func Point(name string) {}
